@@ -5,6 +5,7 @@ import GenlmModel.Model.Norm
 import GenlmModel.Model.Mask
 import GenlmModel.Model.WfsaOps
 import GenlmModel.Model.WfsaOps2
+import GenlmModel.Model.Det
 import GenlmModel.Model.FstOps
 import GenlmModel.Model.PrefixT
 import GenlmModel.Model.IncCky
@@ -334,8 +335,25 @@ def utf8b : Sx → List Sx
   | .s v => v.toUTF8.toList.map fun b => Sx.i b.toNat
   | x => [x]
 
+/-- a weighted subset (Python: `frozendict {q: w}`) as the list of its `[state, weight]` pairs, in the model's order
+(the harness sorts: a `frozendict` has no order) -/
+def subsetToJson (Q : List (Sx × K)) : Json := pairsToJson Q
+
+/-- the outcome of `determinizeRun`: {"outcome":"done","start":[[Q,w]…],"stop":[[Q,w]…],"arcs":[[P,a,Q,w]…]} with the power
+states `P`, `Q` encoded by `subsetToJson`, or {"outcome":"outOfFuel"} / {"outcome":"zeroDiv"} -/
+def detOutcomeToJson : DetOutcome (WFSA (List (Sx × K)) Sx K) → Json
+  | .outOfFuel => Json.mkObj [("outcome", "outOfFuel")]
+  | .zeroDiv => Json.mkObj [("outcome", "zeroDiv")]
+  | .done D =>
+    let pj (l : List (List (Sx × K) × K)) : Json :=
+      .arr (l.map fun e => Json.arr #[subsetToJson e.1, Wt.toJson e.2]).toArray
+    Json.mkObj [("outcome", "done"), ("start", pj D.start), ("stop", pj D.stop),
+      ("arcs", .arr (D.arcs.map fun e =>
+        Json.arr #[subsetToJson e.src, labelToJson e.lbl, subsetToJson e.dst, Wt.toJson e.w]).toArray)]
+
 variable [DecidableEq K] [HasInv K] in
-/-- {"op":"wfsa_op2","name":…,"a":wfsa,…} → mirror models of push / trim / trim_vals / epsremove / to_cfg / to_bytes -/
+/-- {"op":"wfsa_op2","name":…,"a":wfsa,…} → mirror models of push / trim / trim_vals / epsremove / to_cfg / to_bytes /
+determinize (the subset construction of `Model/Det.lean` on the machine `a`, at most `fuel` pops of the work list) -/
 def opWfsaOp2 (j : Json) : E Json := do
   let name ← getStr (← getField j "name")
   let A : WFSA Sx Sx K ← wfsaOfJson (← getField j "a")
@@ -345,6 +363,9 @@ def opWfsaOp2 (j : Json) : E Json := do
       let V ← fun1OfJson (K := K) (← getField j "V")
       pure (wfsaToJson (A.push inv V))
   | "trim" => pure (wfsaToJson A.trim)
+  | "determinize" => do
+      let fuel ← optNat j "fuel" 1000
+      pure (detOutcomeToJson (determinizeRun inv A fuel))
   | "trim_vals" => do
       let f ← fun1OfJson (K := K) (← getField j "fwd")
       let b ← fun1OfJson (K := K) (← getField j "bwd")
